@@ -1,6 +1,7 @@
 from vlib.common import nt_sched, NOTE, SCHED_TRUSTED
 
-_CSYNC_COQ = ["Common/ListLemmas.v", "CSync/RWModel.v", "CSync/RWProofs.v", "CSync/RWSpec.v", "CSync/MModel.v", "CSync/MProofs.v", "CSync/MSpec.v"]
+_CSYNC_COQ = ["Common/ListLemmas.v", "CSync/RWModel.v", "CSync/RWProofs.v", "CSync/RWSpec.v", "CSync/MModel.v", "CSync/MProofs.v", "CSync/MSpec.v",
+              "CSync/MonCore.v", "CSync/RWProofsMon.v", "CSync/MProofsMon.v"]
 _CSYNC_RULE = ("implementation-driven random gate-level histories (Lock/TryLock read+write, Locker.Lock/Unlock on the write and read lockers, one critical section at a time, "
                "context cancellations, release calls incl. double releases) + corpus; distinct = distinct event sequence; "
                "non-trivial = >= 8 events and some actor observed blocked")
@@ -24,22 +25,22 @@ PROPS = {
                  "interleaving of critical sections, cancellations, wake-ups, release calls): counting invariant => at most one API-level write holder and then no "
                  "read holder; release idempotent; failed TryLock / cancelled Lock inert. Models tied to the code by scheduled differential correspondence: "
                  "the harness drives the real locks one critical section at a time (synctest) and the extracted model must produce the same status vectors; "
-                 "exclusion monitors are evaluated on the implementation's observations.",
+                 "exclusion monitors are evaluated on the implementation's observations; c01_*_model_satisfies_monitors: for all event lists the monitors (through the sync.Locker layer) report nothing on the model's own observations.",
             note=NOTE + "Gate placement and the atomicity of a Broadcast critical section are trusted (C13 argues the lock discipline). The sync.Locker wrappers (Locker(), RLocker(), MutexLocker) are in the codec and the harness as Lock-with-background-context plus a stack of release functions (events 6/7; monitor clause 1/3: Unlock panics exactly when the locker holds nothing).",
             technique="Coq inductive invariant over an interleaving model + schedule-controlled differential correspondence against the Go code",
         ),
     ),
     "C02": dict(
-        pid=2, coq=_CSYNC_COQ + ["CSync/MTerm.v", "CSync/Props_C02.v"], props_file="CSync/Props_C02.v", models=_CSYNC_MODELS,
+        pid=2, coq=_CSYNC_COQ + ["CSync/MTerm.v", "CSync/RWTerm.v", "CSync/Props_C02.v"], props_file="CSync/Props_C02.v", models=_CSYNC_MODELS,
         trusted=SCHED_TRUSTED,
         assumptions=["liveness stated as quiescence safety: no grantable waiter is blocked in any state without enabled internal steps",
-                     "termination of internal steps is a theorem for Mutex (c02_mutex_internal_steps_terminate, explicit measure); for RWMutex it is argued with the same measure (each section moves an actor forward; only release/give-up sections broadcast), not yet proved"],
+                     "termination of internal steps is a theorem for both locks, with explicit measures (c02_mutex_internal_steps_terminate, c02_rwmutex_internal_steps_terminate: only the unlocking section of an entered release() and the give-up section of a cancelled waiting writer broadcast, each call at most once)"],
         meta=dict(
             text="Coq theorems over all event lists of the same models: no-lost-wake-up invariant (a caller blocked on an open channel is not grantable), hence at every "
                  "quiescent state no grantable waiter is blocked and no cancelled caller is blocked; counters have no residue from cancelled/failed calls; a read grant "
                  "happens only when no writer is registered waiting (writer preference). The pinned code's violation (D1) is a _refuted theorem and a corpus history. "
                  "Correspondence as C01, with quiescence monitors on the implementation's observations.",
-            note=NOTE + "Liveness is stated as quiescence safety plus termination of internal steps (proved for Mutex with an explicit measure; for RWMutex the termination part is argued, not proved).",
+            note=NOTE + "Liveness is stated as quiescence safety plus termination of internal steps (proved for Mutex and RWMutex with explicit measures, MTerm.v / RWTerm.v). The monitors are tied to the models by c02_*_model_satisfies_monitors (all event lists, through the sync.Locker layer).",
             technique="Coq inductive invariant (no lost wake-up) over an interleaving model + schedule-controlled differential correspondence",
         ),
     ),
